@@ -867,10 +867,19 @@ class Obs:
     def __pow__(self, y):
         if isinstance(y, Obs):
             return derived_observable(lambda x, **kwargs: x[0] ** x[1], [self, y], man_grad=[y.value * self.value ** (y.value - 1), self.value ** y.value * np.log(self.value)])
+        elif isinstance(y, complex):
+            modulus = self ** y.real
+            phase = y.imag * np.log(self)
+            return CObs(modulus * np.cos(phase), modulus * np.sin(phase))
         else:
             return derived_observable(lambda x, **kwargs: x[0] ** y, [self], man_grad=[y * self.value ** (y - 1)])
 
     def __rpow__(self, y):
+        if isinstance(y, complex):
+            log_y = np.log(y)
+            modulus = np.exp(log_y.real * self)
+            phase = log_y.imag * self
+            return CObs(modulus * np.cos(phase), modulus * np.sin(phase))
         return derived_observable(lambda x, **kwargs: y ** x[0], [self], man_grad=[y ** self.value * np.log(y)])
 
     def __abs__(self):
